@@ -10,6 +10,7 @@
 
 extern "C" {
 size_t __real_fwrite(const void *, size_t, size_t, FILE *);
+size_t __real_fread(void *, size_t, size_t, FILE *);
 int __real_fclose(FILE *);
 FILE *__real_fopen(const char *, const char *);
 int __real_fileno(FILE *);
@@ -138,6 +139,15 @@ size_t __wrap_fwrite(const void *ptr, size_t size, size_t n, FILE *f) {
         return n;
     }
     return __real_fwrite(ptr, size, n, f);
+}
+size_t __wrap_fread(void *ptr, size_t size, size_t n, FILE *f) {
+    size_t got = __real_fread(ptr, size, n, f);
+    if (f && f == g_read_fp && sim::active() && g_script.eager_eof && got == n && n != 0 && !ferror(f) && !feof(f)) {
+        int ch = getc(f); // look one byte ahead: at the end of the data this sets the stream's end-of-file indicator
+        if (ch != EOF) ungetc(ch, f);
+        else if (feof(f)) sim::probe("fread_filled_its_request_and_reported_eof_in_the_same_call");
+    }
+    return got;
 }
 int __wrap_fclose(FILE *f) {
     if ((f == stderr || f == stdout || f == stdin) && sim::active()) {
